@@ -134,6 +134,15 @@ def cases(ctx):
                                               "1:2:3:4::5:6:7:8", "::2:3:4:5:6:7:8", "1:2:3:4:5:6:7::", "1::3:4:5:6:7:8", "10000::", "::10000", "0ffff::", "fffff::1", "g::1", "1:2:3:4:5:6:7:8:",
                                               ":1:2:3:4:5:6:7:8", ":1:2:3:4:5:6:7", "1:2:3:4:5:6:7:", "+1::2", "-1::2", "1::+2", "fe80::1%eth0", "::0", "0::", "0::0", "0:0:0:0:0:0:0:0",
                                               "00000::1", "1:2:3:4:5:6:7:00008")]
+    # address families that printers like to special-case (IPv4-mapped / -compatible, NAT64, loopback, link-local, multicast):
+    # written in full and compressed, so that whatever text the printer chooses for them is parsed back
+    for _ in range(ctx.scale(60, 3000)):
+        a, b = rng.randrange(65536), rng.randrange(65536)
+        for gs in ([0, 0, 0, 0, 0, 0xffff, a, b], [0, 0, 0, 0, 0, 0, a, b], [0, 0, 0, 0, 0xffff, 0, a, b], [0x64, 0xff9b, 0, 0, 0, 0, a, b],
+                   [0, 0, 0, 0, 0, 0xffff, 0, b], [0, 0, 0, 0, 0, 0, 0, b % 3], [0xfe80, 0, 0, 0, a, b, a, b], [0xff02, 0, 0, 0, 0, 0, 0, b % 256],
+                   [0x2002, a, b, 0, 0, 0, 0, 1], [0x2001, 0xdb8, 0, 0, a, 0, 0, b]):
+            texts.append(("v6", ":".join(f"{g:x}" for g in gs), "special"))
+    texts += [("v6", t, "special") for t in ("::ffff:102:304", "::ffff:0:0", "::ffff:ffff:ffff", "::102:304", "64:ff9b::102:304", "::ffff:0:102:304", "::1:0:0", "0:0:0:0:0:ffff:c0a8:1")]
     seen = set()
     for kind, t, tag in texts:
         if (kind, t) in seen or t == "":
